@@ -39,8 +39,8 @@ int main(int argc, char **argv) {
   }
   std::string prefix = argv[1];
   // Silence the library's progress chatter.
-  std::ostringstream &sink = *new std::ostringstream();
-  std::streambuf *oldCout = std::cout.rdbuf(sink.rdbuf());
+  NullBuf &sink = *new NullBuf();
+  std::streambuf *oldCout = std::cout.rdbuf(&sink);
 
   {
     std::string cur = prefix + ".cur";
